@@ -171,7 +171,8 @@ impl<const K: usize> Drop for VArc<K> {
             self.e.live.store(false, SeqCst);
             emit(format!("varc dec {} -> {} free", name_of(addr), old));
             if p && !std::thread::panicking() {
-                panic!("pointee destructor panics (requested by the program)");
+                self.e.drop_panics.store(false, SeqCst);
+                panic!("injected: pointee destructor panics (requested by the program)");
             }
         } else {
             emit(format!("varc dec {} -> {}", name_of(addr), old));
